@@ -27,9 +27,17 @@ CHECKER = 'check_c11 GAlphabets.allowed_sizes GAlphabets.reduce GAlphabets.alpha
 CT = {'WF': 'CWF', 'LC': 'CLC', 'LZW': 'CLZW'}
 
 
-def _cx(args):
+def _cx_seq(group):
+    """all calls for one sequence on ONE object, in order (a per-object memo must not leak between alphabets / types)"""
+    st, o = call(SP, group[0][0])
+    if st != 'ok':
+        return [(st, o, None)] * len(group)
+    return [_cx(a, o) for a in group]
+
+
+def _cx(args, o=None):
     seq, ctype, size, ua, w, s, ws = args
-    o = SP(seq)
+    o = o or SP(seq)
     st, v = call(lambda: o.get_linear_complexity(ctype, size, ua, w, s, ws), seconds=20)
     if st != 'ok':
         return st, v, None
@@ -76,7 +84,17 @@ def build(ctx):
             else:
                 ua, size = {}, rng.choice(sizes + [7])
             jobs.append((sq_, ct, size, ua, w, s, rng.randint(1, 6)))
-    res = pmap(_cx, jobs, chunk=32)
+        # the same windows scored under alphabets of different size, back to back on one object
+        w, s = rng.randint(1, N), rng.randint(1, N)
+        a1, a2 = rng.sample(sizes, 2)
+        img = rng.sample(AAS, 3)
+        jobs += [(sq_, 'WF', a1, {}, w, s, 3), (sq_, 'WF', a2, {}, w, s, 3), (sq_, 'WF', 20, {a: rng.choice(img) for a in AAS}, w, s, 3),
+                 (sq_, 'WF', 20, {}, w, s, 3)]
+    byseq = {}
+    for j in jobs:
+        byseq.setdefault(j[0], []).append(j)
+    jobs = [j for q in byseq for j in byseq[q]]
+    res = [r for rr in pmap(_cx_seq, list(byseq.values()), chunk=4) for r in rr]
     cases = []
     ctx.direct_failures = []
     for (sq_, ct, size, ua, w, s, ws), (st, v, extra) in zip(jobs, res):
